@@ -2,7 +2,8 @@
 CONTRACT_MODULES = ['contracts.keys_sig']
 CONTRACTS = ['bitcoinlib.keys.verify[forged-for-offcurve-key-native]', 'bitcoinlib.keys.Signature.create[rfc6979]', 'bitcoinlib.keys.Signature.create[explicit-k]',
              'bitcoinlib.keys.Signature.__init__', 'bitcoinlib.keys.Signature.verify[digest-given]',
-             'bitcoinlib.keys.verify[signature-object]', 'bitcoinlib.keys.Signature.parse_bytes[raw64]', 'bitcoinlib.keys.Signature.parse_bytes[der-native]']
+             'bitcoinlib.keys.verify[signature-object]', 'bitcoinlib.keys.Signature.parse_bytes[raw64]', 'bitcoinlib.keys.Signature.parse_bytes[der-native]',
+             'bitcoinlib.encoding.der_encode_sig[strict-der-native]']
 LEVEL = 'proof'
 LEVEL_TEXT = ('The Python glue around the ECDSA library is verified for all digests, secrets, nonces and (r, s): Signature.create returns exactly '
               'the standard signature under the RFC 6979 nonce of the same digest and secret (or the supplied nonce), with s normalised to '
@@ -12,7 +13,8 @@ LEVEL_TEXT = ('The Python glue around the ECDSA library is verified for all dige
 LEVEL_NOTE = ('Assumed (uninterpreted) third-party functions: fastecdsa _ecdsa.sign/_ecdsa.verify, RFC6979.gen_nonce, DEREncoder, '
               'is_point_on_curve. "Nonce never shared between messages or keys" is reduced to the data-flow fact k = RFC6979(digest, secret) '
               'plus the unproved hypothesis that RFC 6979 is injective. Not covered: the pure-python `ecdsa` fallback (USE_FASTECDSA=false), '
-              'DER parsing through to_bytes() hex-text heuristic, Key.public() (C16).')
+              'DER parsing through to_bytes() hex-text heuristic, Key.public() (C16). der_encode_sig / convert_der_sig (third-party DER code) are a BOUNDED native '
+              'stand-in against an independent strict-DER encoder, not proved.')
 NOT_COVERED = ['USE_FASTECDSA=false branch', 'Signature.parse_bytes DER branch (finding candidate: DER signatures of <= 64 bytes are refused)',
                'independent-verifier cross-check of produced signatures (curve arithmetic is assumed)']
 FUZZ_QUICK = 60
